@@ -13,6 +13,7 @@ package blockdb
 //@   prop C26
 //@   requires fkai != nil && fkai.keylen > 0
 //@   ensures result1 != nil ==> result0 == -1
+//@   dead-paths 1 -- the switch has no default: bytes.Compare returns only -1, 0 or 1
 //@   loop 1 header "for lo, hi := 0, numKeys-1; lo <= hi;"
 //@   loop 1 invariant 0 <= lo && hi < numKeys && numKeys <= len(fkai.buffer)
 //@   loop 1 decreases hi - lo + 1
